@@ -67,7 +67,7 @@ theorem close_idle {s : St} (hr : AtRest s) (h0 : unfinished s = 0) :
   have hnd : isDone s.closing = false := by rw [hr.closing]; rfl
   have e1 : (step s .close).1 = beginJoin (cancelConn s) := by
     have hu : reconOwner s.recon ≠ some .user := hr.notUser
-    simp [step, closeEv, hr.closing, hu, isDone]
+    simp [step, stepDone, stepLive, closeEv, hr.closing, hu, isDone]
   have hj : (beginJoin (cancelConn s)).closing = .joined s.now := by
     rw [beginJoin_closing, unfinished_cancelConn, h0, (cancelConn_fields s).1]; rfl
   have hro : reconOwner (beginJoin (cancelConn s)).recon = none ∨ reconOwner (beginJoin (cancelConn s)).recon = some .proto := by
@@ -104,7 +104,7 @@ theorem close_draining {s : St} (hs : Reachable s) (hr : AtRest s) (dl : Nat) (g
   have hw : s.writer.isSome = true := (hs.winv (by rw [hr.closing]; rfl) (Or.inl hc)).1
   have e1 : (step s .close).1 = beginJoin (cancelConn s) := by
     have hu : reconOwner s.recon ≠ some .user := hr.notUser
-    simp [step, closeEv, hr.closing, hu, isDone]
+    simp [step, stepDone, stepLive, closeEv, hr.closing, hu, isDone]
   obtain ⟨c1, c2, c3, c4, c5, c6, c7, c8, c9, c10⟩ := cancelConn_fields s
   obtain ⟨b1, b2, b3, b4, b5, b6, b7, b8, b9, b10⟩ := beginJoin_fields (cancelConn s)
   have hcr : (cancelConn s).recon = .idle := by unfold cancelConn; split <;> first | rfl | exact hrec
@@ -182,7 +182,7 @@ theorem close_during_setup {s : St} (hs : Reachable s) (hr : AtRest s)
   have hw : s.writer.isSome = true := (hs.winv (by rw [hr.closing]; rfl) (Or.inl hc)).1
   have e1 : (step s .close).1 = beginJoin (cancelConn s) := by
     have hu : reconOwner s.recon ≠ some .user := hr.notUser
-    simp [step, closeEv, hr.closing, hu, isDone]
+    simp [step, stepDone, stepLive, closeEv, hr.closing, hu, isDone]
   obtain ⟨c1, c2, c3, c4, c5, c6, c7, c8, c9, c10⟩ := cancelConn_fields s
   obtain ⟨b1, b2, b3, b4, b5, b6, b7, b8, b9, b10⟩ := beginJoin_fields (cancelConn s)
   have hcr : (cancelConn s).recon = .idle := by unfold cancelConn; split <;> first | rfl | exact hrec
@@ -352,7 +352,7 @@ theorem stuck_disconnected_forever {s : St} {t0 : Nat} (h : Stuck s t0) (hd : De
       cases e with
       | feed f =>
         have hnd : isDone s.closing = false := by rw [h.closing]; rfl
-        have : step s (.feed f) = (s, []) := by simp [step, hnd, feed, hd.prod]
+        have : step s (.feed f) = (s, []) := by simp [step, stepDone, stepLive, hnd, feed, hd.prod]
         simp only [run, this]
         exact ih h hd
       | _ => simp [isFeed] at hfe
@@ -465,5 +465,77 @@ example : AtRest exSetup := ⟨by decide, by decide, by decide, by decide⟩
 example : exSetup.producers > 0 ∧ isReading exSetup.pphase = true ∧ exSetup.wdrain = .ok ∧ exSetup.writeQ.length = 8 ∧
     reqTasks exSetup = 8 ∧ setupTasks exSetup = 1 ∧ exSetup.devices.any inSetupRound = true := by decide
 example : isDone (run exSetup (burstSchedule 8)).1.closing = true ∧ tasks (run exSetup (burstSchedule 8)).1 = 0 := by decide
+
+/-! ### the explicit time bound, task names, frame-version announcements, the object used again -/
+
+/-- **close() time bound** (virtual time, the drains case): close() called at `s.now` has returned at some `t1` with
+`t1 - s.now ≤ |writeQ| · READER_TIMEOUT + WRITER_TIMEOUT ≤ (|writeQ| + 1) · ioTimeout` (`ioTimeout_eq`: 10 s) - one read time-out per queued request
+(each goes out when a frame arrives, which the `Drains` controller sends before the read deadline), one write time-out
+for the transport's `wait_closed()`.  The harness measures every returning close() against this bound (and against
+its generalisation with the failed opens and closed transports of a history) -/
+theorem close_time_bound {s : St} (hs : Reachable s) (hr : AtRest s) (gaps : List Nat) (hd : Drains s gaps) :
+    ∃ t1, (run s (closeSchedule gaps)).1.closing = .done s.now t1 ∧
+      t1 ≤ s.now + (s.writeQ.length * readerTO + writerTO) ∧ t1 ≤ s.now + (s.writeQ.length + 1) * ioTimeout := by
+  have hio : ioTimeout = readerTO ∧ ioTimeout = writerTO := by decide
+  cases hd with
+  | empty h0 =>
+    obtain ⟨t1, h1, h2, _⟩ := close_idle hr h0
+    refine ⟨t1, h1, by omega, ?_⟩
+    rw [Nat.add_mul, Nat.one_mul]; rw [← hio.2] at h2; omega
+  | sending dl gaps hp hrd hdl hk hdr hns hq hl hg =>
+    obtain ⟨t1, h1, h2, _⟩ := close_draining hs hr dl gaps hp hrd hdl hk hdr hns hq hl hg
+    refine ⟨t1, h1, h2, ?_⟩
+    rw [Nat.add_mul, Nat.one_mul]; rw [← hio.1, ← hio.2] at h2; omega
+
+/-- the request kinds of the frame-version dimension are the ones the harness announces -/
+theorem verKinds_eq : verKinds = [64, 48] := by decide
+
+/-- **an announced version that is already stored queues nothing** (`has_frame_version`): the entry is skipped -/
+theorem version_known_queues_nothing (acc : List (Nat × Nat) × List Nat) (p : Nat × Nat)
+    (h : acc.1.lookup p.1 = some p.2) : verEntry acc p = acc := by
+  simp [verEntry, h]
+
+/-- ... and once an entry of a followed kind has been handled its version IS stored - so the same table announced
+again (a controller that keeps broadcasting and never answers) asks for nothing: the write queue cannot grow by
+re-queueing (what seeded C12-m9 breaks; the harness's queue-growth clause is this statement on the implementation) -/
+theorem version_learned (acc : List (Nat × Nat) × List Nat) (p : Nat × Nat) (hk : verKinds.contains p.1 = true) :
+    (verEntry acc p).1.lookup p.1 = some p.2 := by
+  have hk' : p.1 ∈ verKinds := by simpa using hk
+  unfold verEntry
+  by_cases h : acc.1.lookup p.1 = some p.2
+  · simp [hk', h]
+  · simp [hk', h, setVer, List.lookup]
+
+/-- **every live task has one of the eight coroutine names, and they add up**: the per-name prediction the harness
+compares `asyncio.all_tasks()` with sums to `tasks` plus the children of `Queues.join` while close() waits -/
+theorem taskNames_total (s : St) : ((taskNames s).map (·.2)).sum = tasks s + joinTasks s := by
+  simp only [taskNames, List.map_cons, List.map_nil, List.sum_cons, List.sum_nil, tasks, lostTasks, deviceTasks, connTasks]
+  cases hr : s.recon with
+  | idle => simp [reconProtoTasks, reconOwner]; omega
+  | wclosing d => simp [reconProtoTasks, reconOwner]; omega
+  | attempting d o => cases o <;> simp [reconProtoTasks, reconOwner] <;> omega
+  | backoff d o => cases o <;> simp [reconProtoTasks, reconOwner] <;> omega
+
+/-- **close() twice / close() after reopen**: the second close() on a connection that close() left clean is the
+`close_idle` case again - it returns at once (nothing queued, nothing running) -/
+example :
+    let s1 := (run (init 3 true []) [.connect, .prodStart, .feed (.pw 69), .take, .park (.dev 69), .close, .shutdownRun]).1
+    isDone s1.closing = true ∧ tasks s1 = 0 ∧
+    (let s2 := (run s1 [.reopen, .close, .shutdownRun]).1
+     isDone s2.closing = true ∧ tasks s2 = 0 ∧ s2.wopen = false) ∧
+    (let s3 := (run s1 [.reopen, .connect, .prodStart, .feed (.sensors 1 1), .take, .park (.mixer 0)]).1
+     s3.connected = true ∧ s3.consumers = 3 ∧ tasks s3 = 5) := by decide
+
+/-- close() before the first connect(): returns at once -/
+example : isDone (run (init 3 true []) [.close, .shutdownRun]).1.closing = true ∧
+    tasks (run (init 3 true []) [.close, .shutdownRun]).1 = 0 := by decide
+
+/-- daf0ebe in the machine: a retry task created while close() waits (the first attempt failed inside the loss handler,
+its back-off ends during `Queues.join` behind a slow subscriber) is cancelled when close() returns: nothing is left -/
+example :
+    let r := (run (init 2 true [.ok .ok .ok, .err, .err, .ok .ok .ok])
+      [.connect, .prodStart, .gate 69, .feed (.pw 69), .take, .readFault, .lostRun, .close, .advance 20000,
+       .tick .backoffEnd, .release, .shutdownRun]).1
+    isDone r.closing = true ∧ tasks r = 0 ∧ r.recon = .idle := by decide
 
 end PlumVerif.C12
